@@ -230,7 +230,11 @@ def prepare_dir(scn, d):
             with open(dest, 'wb') as f:
                 f.write(OLD)
             os.chmod(dest, scn.get('dest_mode', 0o664))
-        if scn['part'] == 'present':
+        if scn['part'] == 'present' and scn.get('part_link') and scn['dest'] == 'present':
+            # the leftover of an overwrite=False save that died between link(part, dest) and unlink(part): the part
+            # file is a second name of the destination's own inode
+            os.link(dest, part)
+        elif scn['part'] == 'present':
             with open(part, 'wb') as f:
                 f.write(FOREIGN)
             os.chmod(part, 0o604)
@@ -273,7 +277,28 @@ FOREIGN_PART = b'someone else is writing this part file'
 
 
 def do_save(fu, scn, dest):
-    """The client code: one atomic save as a user would write it."""
+    """The client code.  'within': the save is made while the caller is handling (except) or unwinding (finally) an
+    unrelated exception of its own - an error report, a last-known-good state file written from a handler."""
+    within = scn.get('within')
+    if within == 'except':
+        try:
+            raise LookupError('unrelated error the caller is handling')
+        except LookupError:
+            return _do_save(fu, scn, dest)
+    if within == 'finally':
+        try:
+            try:
+                raise LookupError('unrelated error unwinding through the caller')
+            finally:
+                _do_save(fu, scn, dest)
+        except LookupError:
+            return None
+        return None
+    return _do_save(fu, scn, dest)
+
+
+def _do_save(fu, scn, dest):
+    """One atomic save as a user would write it."""
     chunks = new_content(scn)
     BodyError = BODY_EXC[scn.get('raise_kind', 'body-error')]   # noqa: F811
     saver = fu.atomic_save(dest, **saver_kwargs(scn))
